@@ -148,6 +148,103 @@ CLAIMED.update({
     ),
 })
 
+CLAIMED.update({
+    "C02": (
+        "kernel-checked exact integer arithmetic (vm_compute over BigZ) of a proved-sound grid checker on the shipped data + numeric search for the rest",
+        "Theorems for every l, m: Legendre theory (Bonnet recurrence, derivatives, fixed-order recurrence), correctness of the division-free "
+        "integer recurrence, the Cartesian Y_lm is the real spherical harmonic, and `grid_ok_sound`: grid_ok = true implies the real-number "
+        "property for that grid (size, points on the sphere to 1e-13, sum of weights = 4 pi and every harmonic of degree <= d integrates to "
+        "sqrt(4 pi) delta_l0 to 1e-9; pi through a proved rational enclosure). Per run one generated theorem per constructible grid with "
+        "N (d+1)^2 <= B (quick B=1e6: 72 grids; thorough up to 1.2e7: 140 grids) checked by vm_compute on the exact dyadic data; "
+        "`covered_grids_exact` lists exactly which grids are covered. The two defective Ahrens-Beylkin files are refuted in the kernel and listed as known findings.",
+        "Trusted: Coq kernel+vm_compute; stdlib real/classical/funext axioms and the Uint63 primitives BigZ uses; npz loading and the "
+        "normalisation rule re-extracted from angular.py (tied by exact correspondence with AngularGrid(...)). PARTIAL: grids above the cost "
+        "bound B are covered only by the numeric search sweep (float64 + exact rational re-evaluation), which can report violations but is not a proof.",
+        "DESIGN.md section 6 C02",
+    ),
+    "C05": (
+        "Coq proofs by induction over shells of a generic model of AtomGrid + vm_compute over all regenerated preset tables + exact correspondence",
+        "24 theorems (any commutative ring; R instance): constructor builds the product grid of the resolved shells, index table delimits shells, "
+        "point j of shell i = centre + r_i (p_j M_i) with weight w_a w_i r_i^2, factorisation of g(r) A(direction) integrands, rotation keeps "
+        "radii (under orthogonality of M_i) and never changes weights/indices/degrees, translation, get_shell_grid consistency, sector lookup, "
+        "never-coarser, and by vm_compute over all 1374 (preset, element) rows regenerated from the npz files: every row builds except the "
+        "listed ones (`presets_build_partial`, refutations for the potassium SG-1 row (repaired) and the silicon SG-3 data row (known finding)).",
+        "Trusted: Coq kernel+vm_compute; stdlib real axioms for the R instance; rotation matrices from SciPy assumed orthogonal (validated "
+        "numerically each run); sphere nodes unit-norm is C02's; branch constants of from_preset/_get_rgrid_size extracted by ast; float "
+        "rounding bounded per case (<= 4 ulp x magnitude); large preset grids compared with a NumPy oracle within 64 ulp.",
+        "DESIGN.md section 6 C05",
+    ),
+    "C06": (
+        "Coq proofs at R of the Becke partition (formulas re-translated from becke.py each run) incl. chunking for every chunk size + rational correspondence on the code's own distances",
+        "27 theorems for every atom count, order and point: iterated switch maps [-1,1] to itself and is odd, |a| <= 1/2 and antisymmetric "
+        "with clipping, cell in [0,1] and s_AB + s_BA = 1, positive denominator (triangle inequality proved for Euclidean coordinates), weights "
+        "in [0,1] summing to one, 1/0 at nuclei, dependence on distances only hence rigid-motion invariance, relabeling equivariance, the three "
+        "evaluation routes agree, chunked evaluation = unchunked for EVERY chunk size >= 1 and every index table, Hirshfeld shares sum to one, "
+        "radius fallback spec for Z = 1..86. switch/alpha/nu/cell/radius/chunk-size formulas are regenerated from the source by ast each run.",
+        "Trusted: Coq kernel+vm_compute; stdlib real + funext axioms; ast translator of the leaf formulas (tensor lines hand-modelled with "
+        "pinned source text); model executed at bigQ rounded to 2^-256 (cross-checked with exact bigQ on small cases) on distances computed by "
+        "the code's own expressions; pro-atom spline is a Section variable; coincident atoms / nan control flow out of scope.",
+        "DESIGN.md section 6 C06",
+    ),
+    "C08": (
+        "Coq proofs over loop bodies symbolically executed from utils.py each run (all l for order/azimuthal/derivative structure; l <= 3 closed forms) + interval correspondence + mpmath search",
+        "20 theorems on the state transformers regenerated from generate_real_spherical_harmonics / generate_derivative_real_spherical_harmonics / "
+        "solid_harmonics / convert_cart_to_sph: for every l_max the loop returns the Y_lm of the recursive definition in Horton-2 order (row "
+        "index map proved bijective), +-m share one polar factor with cos/sin azimuthal parts, the theta-derivative output is the true derivative, "
+        "2 pi periodicity, solid harmonics definition, Cartesian <-> spherical round trip and the Jacobian used for gradient conversion is the "
+        "inverse, polar-derivative output reduced to the Legendre identity for all l,m. `_partial` (l <= 3, all angles): closed forms, addition theorem, polar derivative.",
+        "Trusted: Coq kernel; stdlib real/classical/funext axioms; fail-closed symbolic executor for the loop bodies (validated by interval "
+        "enclosures l <= 6/10); SciPy sph_harm_y hypothesis validated against 60-digit mpmath each run. PARTIAL: closed forms, addition theorem "
+        "and polar derivative beyond l = 3 are covered by the mpmath search (l <= 30..60) only.",
+        "DESIGN.md section 6 C08",
+    ),
+    "C09": (
+        "Coq proofs at R by induction over shells of a generic model of the harmonic decomposition/interpolation (spline and angular exactness as validated hypotheses) + rational correspondence",
+        "14 theorems for all grids and coefficient tables: shell sums give sqrt(4 pi) g_00(r_i) in both branches, re-weighted sum = grid integral, "
+        "the data handed to spline (l,m) is g_lm(r_i) (mixed degrees, pruned-shell zeroing), interpolant reproduces f at grid points and equals "
+        "sum spline x harmonic elsewhere, radial / spherical derivatives are derivatives of the same interpolant, Cartesian gradient is the "
+        "unique solution of the chain-rule system off the polar axis (`_partial`; `_refuted` on the axis and at the centre: known finding), "
+        "spherical average integrates back, molecular interpolant = sum of atomic ones.",
+        "Trusted: Coq kernel+vm_compute; stdlib real/funext/classical axioms; oracle hypotheses validated numerically each run: CubicSpline "
+        "(knots, linearity, derivative), discrete orthonormality of the angular grids for the product degree (C02), harmonic derivatives (C08); "
+        "thresholds and l_max//2 re-read from the source; everything between knots rests on the spline oracle.",
+        "DESIGN.md section 6 C09",
+    ),
+    "C16": (
+        "Coq proofs over ODE coefficients / right-hand sides / boundary data / loop nests re-translated from poisson.py and robust_poisson.py each run + interval correspondence through recorded solver calls",
+        "20 theorems: the generated ODE is the radial Poisson equation for u = rV (V = u/r identity proved), far-field boundary data = Q/r with "
+        "the Y_00 normalisation, the (l,m) loop visits every Horton row exactly once with the spline of the same row, interpolate_laplacian's "
+        "row operator and degrees, molecular Laplacian/potential = sum over atoms, linearity in the density, robust recombination for both split "
+        "options and exactness on the core model (using C17's s-type Poisson theorem).",
+        "Trusted: Coq kernel+vm_compute; stdlib real/classical/funext axioms; ast translator + statement pins (validated by interval enclosures "
+        "of every recorded coefficient/boundary value); oracles: ODE solver (linear, solves what it is given), splines, harmonic rows, NNLS. "
+        "PARTIAL: agreement with analytic potentials within the documented accuracy is runtime numerics (seeded sweeps at the tests' tolerance).",
+        "DESIGN.md section 6 C16",
+    ),
+    "C19": (
+        "Coq proof by induction over call histories of a heap/alias model whose aliasing configuration is re-extracted from the source each run + history correspondence",
+        "24 theorems for every history: refinement of the shipped-data specification holds for all histories exactly when the (extracted) "
+        "configuration isolates cache entries from returned objects (iff), separation invariant implies refinement, copying at the cache boundary "
+        "establishes it, atomic grids inherit it, no counterexample shorter than 2 calls, instance theorems about the configuration extracted from "
+        "AngularGrid.__init__ / _generate_atomic_grid / get_shell_grid / load_atomic_gaussian_params / set_maximum_parameter_b (scale b fixed once "
+        "=> results independent of call order). Tie: random histories compared bit-for-bit (incl. np.shares_memory structure) inside Coq.",
+        "Trusted: Coq kernel+vm_compute (no axioms); fail-closed abstract interpreter extracting the aliasing configuration (straight-line "
+        "subset); caller edits modelled as whole-array fills / reassignments; numerical content of transform calls uninterpreted.",
+        "DESIGN.md section 6 C19",
+    ),
+    "C20": (
+        "Coq soundness proof of a may-alias/write checker over an effect IR generated from the ten anchored modules each run + dynamic snapshot tie",
+        "`analysis_sound`: for every IR program, summary table and execution, a function accepted by the checker leaves every object reachable "
+        "from an argument and every callback result unchanged; `C20_static`: all 252 generated functions are accepted except a pinned exception "
+        "list (vm_compute), `C20_generated_sound`, and the rejected ones are really rejected at their write sites. Dynamic tie: ~350/1040 public "
+        "calls with byte-wise argument snapshots, read-only arrays, aliased arguments and callbacks returning their argument or a cached array; "
+        "every observed mutation must be predicted statically and vice versa.",
+        "Trusted: Coq kernel+vm_compute (no axioms); the Python->IR translator and its effect tables for NumPy/SciPy (validated dynamically); "
+        "PARTIAL: six higher-order list-of-closures functions are covered by the dynamic tie only; module globals/caches are C19's.",
+        "DESIGN.md section 6 C20",
+    ),
+})
+
 NOT_YET = {
     # pid: reason (kept current; a property moves to CLAIMED once its check is green on the unchanged tree)
 }
